@@ -61,7 +61,7 @@ func c18(e *Env) {
 		hasAppendRecv := false
 		for s, z := range alts {
 			switch {
-			case s == "[]" || s == "makeslice()" || s == "nil" || (strings.HasPrefix(s, "slice(") && strings.HasSuffix(s, ", 0)")):
+			case s == "[]" || s == "makeslice()" || s == "nil" || (strings.HasPrefix(s, "slice(") && strings.HasSuffix(s, ", 0)") && strings.Contains(s, "makeslice") && !strings.Contains(s, "↺")):
 				// a fresh empty slice: it must be created anew for every joined port, i.e. inside the loop over the ports
 				if in, ok := z.Val.(ssa.Instruction); ok && z.Fn != nil {
 					inLoop := false
